@@ -46,7 +46,7 @@ Proof. unfold e1. rewrite map_map. apply map_ext; intros a; apply map_map. Qed.
 Lemma e1_ext (f g : R -> R) (v : list (list R)) : (forall d, f d = g d) -> e1 f v = e1 g v.
 Proof. intros Hfg; unfold e1; apply map_ext; intros a; apply map_ext; exact Hfg. Qed.
 
-Lemma ccl1_value (lam sigma : R) (v : list (list R)) : 0 < lam ->
+Lemma ccl1_value (lam : R) (sigma : sval R) (v : list (list R)) : 0 < lam ->
   pure_ccl1 lam sigma None v = e1 (clip lam) v.
 Proof.
   intros Hl. unfold pure_ccl1, scal. rewrite !e1_e1, e2_e1_self. apply e1_ext; intros d.
